@@ -79,7 +79,7 @@ PROPS = {
     "C15": _p("other", "deductive: every QC test executed with opaque input carriers - obligation carrier-opaque (the test touches its data inputs only through np.array(.) and its time input only through mapdates(.)), so its flags are a function of the normalised series; bounded: the carrier conversions themselves (numpy / pandas / dask behaviour) are checked by running the real functions on every carrier of concrete series and comparing with the canonical call", [T_GEOD, T_ROLL, T_STAT], bounded=["carrier conversion facts: 8 data carriers x 13 time carriers (datetime64 in ns / ms / s / m / h / D, datetimes, Timestamps, DatetimeIndex and Series naive and UTC, epoch numbers) on sampled concrete series (12 per test quick, 120 thorough) plus sub-second axes and irregular whole-minute / hour / day axes, flags compared with the canonical ndarray/datetime64[ns] call"]),
     "C16": _p("proof", "self-composition on the real code: each threshold-driven test is executed twice on one symbolic series with a loose and a strict parameter set; the two results are related at a Skolem index (never less severe; UNKNOWN/MISSING set unchanged). No functional specification is used", [T_GEOD, T_ROLL, T_STAT], assumptions=["climatology_test is not covered by the self-composition (its member loops would have to run in lock-step); for it monotonicity follows from the C08 fold postcondition only"]),
     "C17": _p("proof", "self-composition on the real code: the function is executed on a series and on its transformed copy (x+c, -x, t+c, data and spans shifted together, reversed, changed at one symbolic position) and the two flag arrays are related at a Skolem index", [T_GEOD, T_ROLL, T_STAT], assumptions=["assumed invariance facts of the abstract statistics (not proved, they are properties of the library functions): std/ptp of the whole series are equal for x, x+c and -x; a rolling-window statistic, the window's count of present values and its NaN indicator are equal for the two runs at every row whose window does not contain the changed position (all rows for x+c, -x, t+c)", "climatology_test is not covered by the self-composition (sequential member loops); for it shift invariance and locality follow from the C08 fold postcondition and the bounded case below"], bounded=["ClimatologyShiftHistory: climatology_test with two members, stamps and absolute spans (and data and value spans) shifted together, the configuration list / tuple edited in place between the two calls or rebuilt: 2 x 2 x 4 shifts on the real function"]),
-    "C08": _p("proof", "climatology_test / ClimatologyConfig.check: the member loop is cut by the invariant flag[i] = F_j(i) (fold of the statement over the first j members); body proved for one arbitrary member of each of the 20 shapes (5 period kinds x zspan x fspan); calendar attributes uninterpreted", ["pandas DatetimeIndex calendar attributes (month, week, dayofyear ...): uninterpreted functions of the timestamp; Series[bool] & MaskedArray rule (pyvc/pdmodel.py), conformance-checked"], bounded=["ClimAddSpellings: absolute time spans in 8 spellings pandas.Timestamp accepts (ISO padded / unpadded, month names, US style, datetime, datetime64, Timestamp, mixed) x 4 date pairs x both orders x tuple / list, and 3 spans with bounds outside datetime64[ns] (years 1000, 3000, 9999) x 4 spellings x both orders x object / list layout, on the real ClimatologyConfig.add and climatology_test (the deductive ClimAdd cases hand over datetime values; what pandas makes of a string is library behaviour)"]),
+    "C08": _p("proof", "climatology_test / ClimatologyConfig.check: the member loop is cut by the invariant flag[i] = F_j(i) (fold of the statement over the first j members); body proved for one arbitrary member of each of the 20 shapes (5 period kinds x zspan x fspan); calendar attributes uninterpreted; ClimatologyConfig.add (sorted spans, unknown period rejected) and ClimatologyConfig.convert (one member per dict in list order for lists of 0-3 dicts with symbolic contents - exhaustive per length, bounded in the length; a ClimatologyConfig object passes through)", ["pandas DatetimeIndex calendar attributes (month, week, dayofyear ...): uninterpreted functions of the timestamp; Series[bool] & MaskedArray rule (pyvc/pdmodel.py), conformance-checked"], bounded=["ClimAddSpellings: absolute time spans in 8 spellings pandas.Timestamp accepts (ISO padded / unpadded, month names, US style, datetime, datetime64, Timestamp, mixed) x 4 date pairs x both orders x tuple / list, and 3 spans with bounds outside datetime64[ns] (years 1000, 3000, 9999) x 4 spellings x both orders x object / list layout, on the real ClimatologyConfig.add and climatology_test (the deductive ClimAdd cases hand over datetime values; what pandas makes of a string is library behaviour)"]),
     "C09": _p("proof", "spike_test: interior points by the statement's magnitude formula (both methods, thresholds present/absent), end points, ValueError on unknown method"),
     "C10": _p("proof", "rate_of_change_test and speed_test against rate = |dx| / whole elapsed seconds and geodesic speed; great_circle_distance verified against its contract and used through it", [T_GEOD]),
     "C11": _p("proof", "flat_line_test with its closures: window of floor(threshold/D)+1 points ending at k, range of present values < tolerance; min/max reductions as ground objects with cross-instantiated bounds", [T_STAT]),
